@@ -52,7 +52,11 @@ def delegate(repo, rep: Report, tier: str, src_pid: str, src_rules: tuple[str, .
         f2["detail"] = f["detail"] + " - " + consequence
         rep.obligations.append(f2)
         rep.failures.append(f2)
-    for d in getattr(sub, "deferred", []):
-        rep.defer(f"[{src_pid}] {d}")
+    # what the lender could not analyse concerns the borrower only when it left the borrowed rules without a single
+    # obligation (the lender reports its own gaps under its own name); otherwise a gap in an unrelated rule of the
+    # lender - or of the lender's lenders - would make every borrower "not analysed"
+    if n < floor:
+        for d in getattr(sub, "deferred", []):
+            rep.defer(f"[{src_pid}] {d}")
     rep.floor(f"obligations borrowed from {src_pid} {'/'.join(src_rules)}", n, floor)
     return n
